@@ -64,16 +64,23 @@ pub enum Writer {
 
 /// Produce an archive with the CLI writer in `dir`. Returns archive bytes.
 pub fn compress_cli(dir: &Path, tag: &str, source: &[u8], cfg: &ArchCfg, stdin: bool, metadata: &[MetaArg], hook: Option<&l2::Hook>) -> Result<(Vec<u8>, l2::RunOut), String> {
-    compress_cli_over(dir, tag, source, cfg, stdin, metadata, hook, None)
+    compress_cli_over(dir, tag, source, cfg, stdin, metadata, hook, None, None)
 }
 
 /// `existing`: content already present at the archive path; the command is then run with --force-create.
-pub fn compress_cli_over(dir: &Path, tag: &str, source: &[u8], cfg: &ArchCfg, stdin: bool, metadata: &[MetaArg], hook: Option<&l2::Hook>, existing: Option<&[u8]>) -> Result<(Vec<u8>, l2::RunOut), String> {
+/// `stale_tmp`: content of a temporary chunk file left behind at the temp path by an earlier, failed run.
+pub fn compress_cli_over(dir: &Path, tag: &str, source: &[u8], cfg: &ArchCfg, stdin: bool, metadata: &[MetaArg], hook: Option<&l2::Hook>, existing: Option<&[u8]>, stale_tmp: Option<&[u8]>) -> Result<(Vec<u8>, l2::RunOut), String> {
     let src_name = format!("{}.src", tag);
     let arch_name = format!("{}.cba", tag);
     let _ = std::fs::remove_file(dir.join(&arch_name));
     if let Some(e) = existing {
         l2::write_file(&dir.join(&arch_name), e);
+    }
+    // the CLI derives the temp path from the output path: Path::with_extension(output, ".tmp")
+    let tmp_path = Path::new(&arch_name).with_extension(".tmp");
+    let _ = std::fs::remove_file(dir.join(&tmp_path));
+    if let Some(t) = stale_tmp {
+        l2::write_file(&dir.join(&tmp_path), t);
     }
     if !stdin {
         l2::write_file(&dir.join(&src_name), source);
